@@ -28,7 +28,13 @@ RULE = ('random base arrays (1-4 axes, 0-7 elements per axis, element = C-order 
         'in 12 % of the gaps; per request the outcome, the delivered value, the transform calls made and the chunks read '
         'before an element was requested are compared with the atomic, all-or-nothing, cached computation. A history is '
         'non-trivial when a request after a faulted one exists and some object has >= 2 transforms; distinct by '
-        '(shape, objects, history).')
+        '(shape, objects, history). Store histories (stream store): 1-2 recording chunk stores, 1-3 indexers (45 % nested) '
+        'with contiguous non-empty first-stage indices and 0-2 transforms, a history of 4-14 public accesses (construction, '
+        '.shape, .dtype, .dataset, len, str, repr, indexer[k], get([..], k); 20 % of the later steps repeat an earlier '
+        'request); after every access the increment of the stores\' get_chunk logs (store, array, slices) is compared with '
+        'the store-history model and a numpy statement of "whole chunks overlapping the region, each once", non-fetch '
+        'accesses must read nothing and advertise the numpy shape/dtype. A store history is non-trivial with >= 2 element '
+        'requests and an advertisement; distinct by (shape, chunks, indexers, history).')
 ASSUMPTIONS = ['numpy outer indexing (np.take per axis) is the oracle; dask own slicing/take/cull/store are exercised, not modelled',
                'transforms of the correspondence: elementwise 2x+1 -> float64, x[..., 0], elementwise -x -> int32',
                'read sets are compared only for requests whose composed region is non-empty on every axis (F34 otherwise)',
@@ -1453,6 +1459,269 @@ LAZY_FIXED = [
 ]
 
 
+
+# ---------------------------------------------------------------------------------------------
+# the store as a recorded history: multi-step histories of public accesses over recording chunk stores
+# (wire 48 = Model/DaskStore.v: log increment of every access)
+
+STORE_META = ['shape', 'dtype', 'dataset', 'len', 'str', 'repr']
+
+
+def gen_store_case(rng):
+    nd = rng.randint(1, 3)
+    shape = tuple(rng.randint(1, 6 if nd <= 2 else 4) for _ in range(nd))
+    chunks = rnd_chunks(rng, shape)
+    nstores = rng.choice([1, 2])
+    x = np.arange(int(np.prod(shape))).reshape(shape)
+    inds, dss = [], []
+
+    def rnd_keep(shp):
+        return [rnd_nonempty_contig(rng, n) for n in shp[:rng.randint(0, len(shp))]]
+
+    for j in range(rng.randint(1, 3)):
+        if j > 0 and rng.random() < 0.45:
+            p = rng.randrange(j)
+            ind = dict(store=inds[p]['store'], name=inds[p]['name'], parent=p, pre=None, keep=rnd_keep(dss[p].shape))
+            base = dss[p]
+        else:
+            ind = dict(store=rng.randrange(nstores), name=rng.choice([0, 1]), parent=None, pre=None, keep=rnd_keep(shape))
+            base = x
+        ind['trs'] = list(rng.choice([[], [], [0], [2], [0, 2]]))
+        ds = np_oindex(base, ind['keep'])
+        for c in ind['trs']:
+            ds = tr_np(c, ds)
+        inds.append(ind)
+        dss.append(ds)
+    hist = []
+    made = []
+
+    def meta_op():
+        j = rng.choice(made)
+        kinds = [k for k in STORE_META if k != 'len' or dss[j].ndim >= 1]
+        return dict(kind=rng.choice(kinds), objs=[j], k2=[])
+
+    def fetch_op():
+        j = rng.choice(made)
+        k2 = rnd_keep(dss[j].shape)
+        objs = [j]
+        if rng.random() < 0.4:
+            # a joint get: further objects of OTHER stored arrays with the same data set shape (sharing one stored
+            # array between a culled and an un-culled selection is finding F48 and lives in the joint stream)
+            for o in made:
+                if o != j and dss[o].shape == dss[j].shape and \
+                        all((inds[o]['store'], inds[o]['name']) != (inds[q]['store'], inds[q]['name']) for q in objs):
+                    objs.append(o)
+        return dict(kind='getitem' if len(objs) == 1 and rng.random() < 0.7 else 'get', objs=objs, k2=k2)
+
+    for j in range(len(inds)):
+        hist.append(dict(kind='new', objs=[j], k2=[]))
+        made.append(j)
+        for _ in range(rng.choice([0, 1, 1, 2])):
+            hist.append(meta_op())
+        if rng.random() < 0.3:
+            hist.append(fetch_op())
+    for _ in range(rng.randint(2, 5)):
+        r = rng.random()
+        if r < 0.2 and any(h['kind'] in ('get', 'getitem') for h in hist):
+            hist.append(dict(rng.choice([h for h in hist if h['kind'] in ('get', 'getitem')])))   # the same request again
+        elif r < 0.55:
+            hist.append(meta_op())
+        else:
+            hist.append(fetch_op())
+    return dict(stream='store', shape=list(shape), chunks=[list(c) for c in chunks], nstores=nstores, inds=inds, hist=hist)
+
+
+def store_json(case):
+    pl = lambda k: [list(i) if isinstance(i, tuple) else i for i in k]
+    return dict(case, inds=[dict(i, keep=pl(i['keep'])) for i in case['inds']],
+                hist=[dict(h, k2=pl(h['k2'])) for h in case['hist']])
+
+
+def store_from_json(d):
+    return dict(d, inds=[dict(i, keep=[from_json(k) for k in i['keep']]) for i in d['inds']],
+                hist=[dict(h, k2=[from_json(k) for k in h['k2']]) for h in d['hist']])
+
+
+def store_rind(case, j, k2):
+    pseudo = dict(shape=case['shape'], inds=case['inds'], k2=k2)
+    return [case['inds'][j]['store'], case['inds'][j]['name'],
+            [[list(c), [to_wire(ix) for ix in ks]] for c, ks in zip(case['chunks'], joint_axes(pseudo, j))]]
+
+
+def wire_store(case):
+    ops = []
+    for h in case['hist']:
+        if h['kind'] == 'new':
+            ops.append([0, store_rind(case, h['objs'][0], [])])
+        elif h['kind'] in STORE_META:
+            ops.append([1, store_rind(case, h['objs'][0], [])])
+        else:
+            ops.append([2, [store_rind(case, j, h['k2']) for j in h['objs']]])
+    return [48, ops]
+
+
+def run_store_impl(case):
+    import dask
+    from katdal.lazy_indexer import DaskLazyIndexer
+    from fixtures import jointstore
+    JRec, JLOG = jointstore.JRec, jointstore.LOG
+    shape = tuple(case['shape'])
+    chunks = tuple(tuple(c) for c in case['chunks'])
+    res = []
+    with warnings.catch_warnings(), dask.config.set(scheduler='sync'):
+        warnings.simplefilter('ignore')
+        JLOG.clear()
+        stores = [JRec(s, x=jcontent(shape, s, 0), y=jcontent(shape, s, 1)) for s in range(case['nstores'])]
+        roots, objs = {}, {}
+        for h in case['hist']:
+            r = dict(exc=None, val=None)
+            try:
+                j = h['objs'][0]
+                k2 = tuple(to_py(i, True) for i in h['k2'])
+                if h['kind'] == 'new':
+                    ind = case['inds'][j]
+                    if ind['parent'] is not None:
+                        src = objs[ind['parent']]
+                    else:
+                        key = (ind['store'], ind['name'])
+                        if key not in roots:
+                            roots[key] = stores[key[0]].get_dask_array(NAMES[key[1]], chunks, np.dtype('int64'))
+                        src = roots[key]
+                    objs[j] = DaskLazyIndexer(src, tuple(to_py(i, True) for i in ind['keep']), [TR(c) for c in ind['trs']])
+                elif h['kind'] == 'shape':
+                    r['val'] = list(objs[j].shape)
+                elif h['kind'] == 'dtype':
+                    r['val'] = str(objs[j].dtype)
+                elif h['kind'] == 'dataset':
+                    d = objs[j].dataset
+                    r['val'] = [list(d.shape), str(d.dtype)]
+                elif h['kind'] == 'len':
+                    r['val'] = len(objs[j])
+                elif h['kind'] == 'str':
+                    r['val'] = str(objs[j]).split(' -> ')[-1]
+                elif h['kind'] == 'repr':
+                    r['val'] = repr(objs[j]).split(': ')[-1].split(' at ')[0]
+                elif h['kind'] == 'getitem':
+                    r['val'] = [objs[j][k2]]
+                else:
+                    r['val'] = list(DaskLazyIndexer.get([objs[o] for o in h['objs']], k2))
+            except Exception as e:
+                r['exc'] = '%s:%s' % (type(e).__name__, str(e)[:80])
+            r['calls'] = sorted((t, NAMES.index(n), c) for t, l in JLOG.items() for n, c in l)
+            JLOG.clear()
+            res.append(r)
+    return res
+
+
+def store_sig(case, n, symptom):
+    h = case['hist'][n]
+    fetched_before = any(g['kind'] in ('get', 'getitem') for g in case['hist'][:n])
+    nested = any(case['inds'][j]['parent'] is not None for j in h['objs'])
+    repeat = any(g['kind'] in ('get', 'getitem') and g['objs'] == h['objs'] and g['k2'] == h['k2'] for g in case['hist'][:n])
+    return 'store;access=%s;n=%d;nested=%s;after_a_fetch=%s;repeat=%s;symptom=%s' % (
+        h['kind'], len(h['objs']), nested, fetched_before, repeat, symptom)
+
+
+def compare_store(ctx, case, mo):
+    cj = store_json(case)
+    shape = tuple(case['shape'])
+    offs = [np.concatenate([[0], np.cumsum(c)]).tolist() for c in case['chunks']]
+    grid = [set(zip(o[:-1], o[1:])) for o in offs]
+    dsets, _ = joint_np(dict(shape=case['shape'], inds=case['inds'], k2=[]))
+    impl = run_store_impl(case)
+    ctx.traces_validated += 1
+    model = None
+    if mo is not None and mo != SX_ERR:
+        model = [None if o == [0] else sorted((c[0], c[1], tuple((a, b) for a, b in c[2])) for c in o[1]) for o in mo[0]]
+        if mo[2] != [0, 1]:
+            # (also a stale binary built from another tree while the translator refuses the current one)
+            ctx.disagree('store;translated_compute_counts', cj, mo[2], [0, 1], 'the translator counts a dask computation '
+                         'in an accessor that must not compute (or not exactly one in get())', kind='tie')
+            model = None
+    else:
+        ctx.extra['store_model_binary'] = 'not available: python oracle only'
+    for n, (h, r) in enumerate(zip(case['hist'], impl)):
+        ctx.count('store:op=' + h['kind'])
+        fetch = h['kind'] in ('get', 'getitem')
+        if r['exc'] is not None:
+            ctx.disagree(store_sig(case, n, 'raises'), dict(cj, at=n), r['exc'], None,
+                         'a public access of a valid lazy indexer raised')
+            return
+        if not fetch:
+            if r['calls']:
+                ctx.disagree(store_sig(case, n, 'read_before_element_requested'), dict(cj, at=n), r['calls'][:6], [],
+                             'the store was asked for chunks by an access that requests no element '
+                             '(construction / .shape / .dtype / .dataset / len / str / repr)')
+            if model is not None and model[n] != []:
+                ctx.disagree(store_sig(case, n, 'tie:model_reads_on_meta'), dict(cj, at=n), r['calls'][:6], model[n],
+                             'the translated model reads on an access that requests no element', kind='tie')
+            j = h['objs'][0]
+            e = dsets[j]
+            want = {'shape': list(e.shape), 'dtype': str(e.dtype), 'dataset': [list(e.shape), str(e.dtype)],
+                    'len': e.shape[0] if e.ndim else None, 'str': '%s %s' % (tuple(e.shape), e.dtype),
+                    'repr': 'shape %s, type %s' % (tuple(e.shape), e.dtype), 'new': None}[h['kind']]
+            if h['kind'] != 'new' and r['val'] != want:
+                ctx.disagree(store_sig(case, n, 'advertised_shape_dtype'), dict(cj, at=n), r['val'], want,
+                             'shape / dtype advertised before the fetch differ from transform(array[stage 1])')
+            continue
+        exp, touched = joint_np(dict(shape=case['shape'], inds=case['inds'], k2=h['k2']))
+        sel = h['objs']
+        oracle = joint_oracle_reads(dict(chunks=case['chunks'], inds=[case['inds'][j] for j in sel]),
+                                    [touched[j] for j in sel])
+        for o, j in zip(r['val'], sel):
+            if not same(o, exp[j]):
+                ctx.disagree(store_sig(case, n, 'wrong_data'), dict(cj, at=n),
+                             dict(shape=list(o.shape), dtype=str(o.dtype), values=o.astype(np.int64).ravel().tolist()[:24]),
+                             exp[j].tolist(), 'a fetch inside a history differs from transform(array[stage 1])[stage 2]')
+        got = r['calls']
+        if model is not None and model[n] != oracle:
+            ctx.disagree(store_sig(case, n, 'coq_reads_vs_oracle'), dict(cj, at=n), oracle, model[n],
+                         'Coq store-history model differs from the numpy statement of "whole chunks touched by the '
+                         'request, each once" (harness/spec defect)', kind='tie')
+            continue
+        if got != oracle:
+            gs, es = set(got), set(oracle)
+            part = [c for c in got if any(se not in grid[a] for a, se in enumerate(c[2]))]
+            sym = ('partial_chunk_requested' if part else 'chunk_read_twice' if gs == es else 'over_read' if gs > es
+                   else 'under_read' if gs < es else 'other_reads')
+            ctx.disagree(store_sig(case, n, sym), dict(cj, at=n), got, oracle, 'the get_chunk calls recorded during an '
+                         'element request differ from: the whole stored chunks overlapping the requested region, each once')
+        ctx.count('store:fetch_compared')
+        if any(g['kind'] in ('get', 'getitem') and g['objs'] == h['objs'] and g['k2'] == h['k2'] for g in case['hist'][:n]):
+            ctx.count('store:repeated_request')
+    nf = sum(1 for h in case['hist'] if h['kind'] in ('get', 'getitem'))
+    ctx.count('store:fetches=%d' % min(nf, 4))
+    ctx.count('store:objects=%d' % len(case['inds']))
+    if any(i['parent'] is not None for i in case['inds']):
+        ctx.count('store:nested')
+    if any(len(h['objs']) > 1 for h in case['hist']):
+        ctx.count('store:joint_get')
+    ctx.note_case(('store', tuple(case['shape']), repr(case['chunks']), repr(cj['inds']), repr(cj['hist'])),
+                  nontrivial=nf >= 2 and any(h['kind'] in STORE_META for h in case['hist']),
+                  sample=dict(shape=case['shape'], chunks=case['chunks'], inds=cj['inds'], hist=cj['hist']))
+
+
+STORE_FIXED = [
+    dict(stream='store', shape=[3, 6], chunks=[[2, 1], [3, 1, 2]], nstores=1,
+         inds=[dict(store=0, name=0, parent=None, pre=None, keep=[('s', 1, 3, None), ('s', 2, 5, None)], trs=[0]),
+               dict(store=0, name=0, parent=0, pre=None, keep=[('s', 0, 1, None)], trs=[2])],
+         hist=[dict(kind='new', objs=[0], k2=[]), dict(kind='shape', objs=[0], k2=[]), dict(kind='new', objs=[1], k2=[]),
+               dict(kind='dtype', objs=[1], k2=[]), dict(kind='repr', objs=[1], k2=[]),
+               dict(kind='getitem', objs=[1], k2=[0, ('s', 1, 3, None)]), dict(kind='len', objs=[0], k2=[]),
+               dict(kind='getitem', objs=[1], k2=[0, ('s', 1, 3, None)]), dict(kind='get', objs=[0], k2=[])]),
+]
+
+
+def run_store(ctx, cases):
+    outs = [None] * len(cases)
+    if ctx.model_ok:
+        try:
+            outs = ctx.model([wire_store(c) for c in cases])
+        except Exception as e:                 # a model binary built without Model/DaskStore.v
+            ctx.extra['store_model_binary'] = 'unavailable: %s' % str(e)[-120:]
+    for c, o in zip(cases, outs):
+        compare_store(ctx, c, o)
+
 # ---------------------------------------------------------------------------------------------
 
 F20_WITNESS = dict(shape=[5], chunks=[[2, 3]], levels=[[[], []]], k2=[['s', -6, 2, -2]], src='from_array',
@@ -1464,6 +1733,8 @@ def run_findings(ctx):
         w = f.get('witness') or {}
         if w.get('stream') == 'lazy':
             run_lazy(ctx, [lazy_from_json(w)])
+        elif w.get('stream') == 'store':
+            run_store(ctx, [store_from_json(w)])
         elif w.get('stream') == 'reads':
             case = dict(w['case'], stages=[[from_json(i) for i in k] for k in w['case']['stages']])
             compare_reads(ctx, case, ctx.model([wire_reads(case)])[0])
@@ -1478,6 +1749,7 @@ def run(ctx):
     if not ctx.model_ok:
         # no model binary at all: the fault histories still have their python statement of the spec
         run_lazy(ctx, LAZY_FIXED + [gen_lazy_case(ctx.rng) for _ in range(ctx.scale(400, 4000))])
+        run_store(ctx, STORE_FIXED + [gen_store_case(ctx.rng) for _ in range(ctx.scale(250, 3000))])
         raise RuntimeError('no model binary: cannot run the correspondence')
     run_findings(ctx)
     run_lazy(ctx, LAZY_FIXED + [gen_lazy_case(ctx.rng) for _ in range(ctx.scale(400, 4000))])
@@ -1495,6 +1767,7 @@ def run(ctx):
         compare_reads(ctx, c, o)
     jcases = [gen_joint_case(rng) for _ in range(ctx.scale(700, 8000))]
     run_joint(ctx, jcases)
+    run_store(ctx, STORE_FIXED + [gen_store_case(rng) for _ in range(ctx.scale(250, 3000))])
     if ctx.tier == 'thorough':
         exhaustive_small(ctx)
         cross_check_extraction(ctx, cases[:150], rcases[:50], jcases[:60])
@@ -1570,6 +1843,8 @@ def replay(ctx, doc):
     case = doc.get('case', {})
     if case.get('stream') == 'lazy':
         run_lazy(ctx, [lazy_from_json(case)])
+    elif case.get('stream') == 'store':
+        run_store(ctx, [store_from_json({k: v for k, v in case.items() if k != 'at'})])
     elif 'inds' in case:
         run_joint(ctx, [joint_from_json(case)])
     elif 'stages' in case:
